@@ -67,7 +67,18 @@ type callUse struct {
 	Pos    token.Pos
 }
 
+type bufWrite struct {
+	Buffer     string // name of the strings.Builder local
+	Class      string // raw | lower | encoded | literal | other
+	Set        string // encode set expression for Class == encoded
+	DigitGuard bool   // the written code point passed ASCIIDigit.Test on this path
+	Special    tri    // value of url.IsSpecialScheme()/isSpecialScheme(url.scheme) known on the path
+	Pos        token.Pos
+}
+
 type smPath struct {
+	BufWrites        []bufWrite
+	BufferEmptyAtEnd bool
 	Ctx, State string
 	Next       string // "" = stay in the state
 	NextPos    token.Pos
@@ -140,6 +151,9 @@ type errVar struct {
 }
 
 type pst struct {
+	bufState  map[string]string          // builder name -> empty | nonempty
+	setVars   map[types.Object]string    // local *PercentEncodeSet variables -> resolved expression
+	strVars   map[types.Object]ast.Expr  // local strings defined by an encode call
 	path      smPath
 	facts     map[string]bool
 	rclass    map[string]bool
@@ -160,6 +174,19 @@ func (s *pst) clone() *pst {
 	n.path.Calls = append([]callUse(nil), s.path.Calls...)
 	n.path.Assumes = append([]string(nil), s.path.Assumes...)
 	n.path.Undecided = append([]string(nil), s.path.Undecided...)
+	n.path.BufWrites = append([]bufWrite(nil), s.path.BufWrites...)
+	n.bufState = map[string]string{}
+	for k, v := range s.bufState {
+		n.bufState[k] = v
+	}
+	n.setVars = map[types.Object]string{}
+	for k, v := range s.setVars {
+		n.setVars[k] = v
+	}
+	n.strVars = map[types.Object]ast.Expr{}
+	for k, v := range s.strVars {
+		n.strVars[k] = v
+	}
 	n.facts = make(map[string]bool, len(s.facts))
 	for k, v := range s.facts {
 		n.facts[k] = v
@@ -685,6 +712,40 @@ func (a *smAn) call(call *ast.CallExpr, s *pst) {
 		}
 		return
 	}
+	// strings.Builder locals: buffer discipline
+	if recv != nil {
+		if id, ok := ast.Unparen(recv).(*ast.Ident); ok {
+			if o := a.obj(id); o != nil && o.Type().String() == "strings.Builder" {
+				switch callee.Name() {
+				case "Reset":
+					s.bufState[id.Name] = "empty"
+				case "WriteRune", "WriteString", "WriteByte", "Write":
+					s.bufState[id.Name] = "nonempty"
+					w := bufWrite{Buffer: id.Name, Class: "other", Pos: call.Pos(), Special: triU}
+					if len(call.Args) == 1 {
+						w.Class, w.Set = a.classify(call.Args[0], s)
+						if a.isIdent(call.Args[0], a.rObj) {
+							for k, v := range s.facts {
+								if v && strings.HasPrefix(k, "ASCIIDigit.Test(") {
+									w.DigitGuard = true
+								}
+							}
+						}
+					}
+					for k, v := range s.facts {
+						if strings.Contains(k, "pecialScheme(") {
+							if v {
+								w.Special = triT
+							} else {
+								w.Special = triF
+							}
+						}
+					}
+					s.path.BufWrites = append(s.path.BufWrites, w)
+				}
+			}
+		}
+	}
 	// handler calls are recorded where their result is bound (assign); a bare call is recorded untested
 	if fnv := a.ssaOf(callee); fnv != nil {
 		if h := a.em.Handlers[fnv]; h != nil {
@@ -697,6 +758,45 @@ func (a *smAn) call(call *ast.CallExpr, s *pst) {
 	}
 	// effects on url through the callee's summary
 	a.calleeEffects(call, callee, recv, s)
+}
+
+// classify describes the value written to a builder: raw code point, lower-cased, percent-encoded with a set, literal.
+func (a *smAn) classify(e ast.Expr, s *pst) (string, string) {
+	e = ast.Unparen(e)
+	if tv, ok := a.info.Types[e]; ok && tv.Value != nil {
+		return "literal", ""
+	}
+	switch x := e.(type) {
+	case *ast.Ident:
+		if a.obj(x) == a.rObj {
+			return "raw", ""
+		}
+		if d, ok := s.strVars[a.obj(x)]; ok {
+			return a.classify(d, s)
+		}
+	case *ast.CallExpr:
+		callee, _ := typeutil.Callee(a.info, x).(*types.Func)
+		if callee == nil {
+			return "other", ""
+		}
+		switch {
+		case callee.FullName() == "unicode.ToLower" && len(x.Args) == 1 && a.isIdent(x.Args[0], a.rObj):
+			return "lower", ""
+		case strings.HasPrefix(callee.Name(), "percentEncode") && len(x.Args) == 2:
+			return "encoded", a.resolveSet(x.Args[1], s)
+		}
+	}
+	return "other", ""
+}
+
+func (a *smAn) resolveSet(e ast.Expr, s *pst) string {
+	e = ast.Unparen(e)
+	if id, ok := e.(*ast.Ident); ok {
+		if v, ok := s.setVars[a.obj(id)]; ok {
+			return v
+		}
+	}
+	return a.str(e)
 }
 
 func rootIdentOf(e ast.Expr) *ast.Ident {
@@ -1243,6 +1343,16 @@ func (a *smAn) assign(x *ast.AssignStmt, s *pst) {
 				}
 				continue
 			}
+			if r != nil && namedOf(o.Type()) == "PercentEncodeSet" {
+				s.setVars[o] = a.resolveSet(r, s)
+			}
+			if r != nil && types.Identical(o.Type(), types.Typ[types.String]) {
+				if call, ok := ast.Unparen(r).(*ast.CallExpr); ok {
+					if cl, _ := typeutil.Callee(a.info, call).(*types.Func); cl != nil && strings.HasPrefix(cl.Name(), "percentEncode") {
+						s.strVars[o] = r
+					}
+				}
+			}
 			if o == a.urlObj {
 				if u, ok := ast.Unparen(r).(*ast.UnaryExpr); ok && u.Op == token.AND {
 					s.urlNil = triF
@@ -1376,7 +1486,7 @@ func (a *smAn) clauseBody(state string) []ast.Stmt {
 }
 
 func (a *smAn) newState(state string) *pst {
-	return &pst{path: smPath{Ctx: a.ctx.Name, State: state}, facts: map[string]bool{}, rclass: a.allClasses(), eofSynced: true,
+	return &pst{bufState: map[string]string{}, setVars: map[types.Object]string{}, strVars: map[types.Object]ast.Expr{}, path: smPath{Ctx: a.ctx.Name, State: state}, facts: map[string]bool{}, rclass: a.allClasses(), eofSynced: true,
 		errs: map[types.Object]*errVar{}, nonNil: map[types.Object]bool{}, urlNil: triF}
 }
 
@@ -1425,6 +1535,7 @@ func (a *smAn) explore(ctx smContext) (paths []*smPath, reach []string) {
 			if s.brk == "continue" {
 				s.path.Continue = true
 			}
+			s.path.BufferEmptyAtEnd = s.bufState["buffer"] == "empty"
 			for k := range s.rclass {
 				s.path.RClass = append(s.path.RClass, k)
 			}
